@@ -532,6 +532,8 @@ def run(ctx):
     _no_handle_after_give_back(ctx, bs)
     from .common import delegating_wrapper_rule
     delegating_wrapper_rule(ctx, 'C12-D7')
+    from .common import proxy_pool_identity_rule
+    proxy_pool_identity_rule(ctx, 'C12-D7')
     rc = repo.func(bs.qual + '.recycle')
     okr = False
     for lp in walk_no_nested(rc.node):
